@@ -147,6 +147,17 @@ CHECKS = {
   note="Projects are materialised under $TMPDIR and removed. File names in diagnostics are read from the rendering's arrow line.",
   tech="TLA+ project semantics; TLC-enumerated projects x permutations run on the real transpile_dir; TLC judges recorded trees and events",
   ref="DESIGN.md 9/C13"),
+ "C19": dict(
+  text="spec/Diag.tla states what a diagnostic must satisfy (names its file, position inside the file, quoted lines verbatim, some "
+       "marked position on the fault line). Inputs: fault injection (lexical / syntactic / type / undefined-name fault at every "
+       "statement line of every accepted C01 program: the fault line is known by construction), rejected programs of the C05-C09 "
+       "grids, token soup / shapes / inheritance digraphs of spec/PipelineInputs.tla, the repository's invalid samples - each alone "
+       "and as one file of a two-file project. The rendered diagnostics are abstracted by parsing and judged by TLC "
+       "(spec/DiagJudge.tla).",
+  note="File, position, marked and quoted lines are read off the rendering; unrecognised renderings are counted, not judged. "
+       "Open known findings KF-C19-1 (Eof column, pinned by the repository's lexer tests), KF-C19-2 (0:0 inside interpolations).",
+  tech="TLA+ well-formedness predicate; fault injection with known fault line; TLC judges abstracted diagnostics",
+  ref="DESIGN.md 9/C19"),
 }
 
 PENDING_REASON = "check not built yet in this snapshot (work in progress; see DESIGN.md section 13)"
